@@ -427,6 +427,7 @@ func (g *Gen) run() {
 	}
 	g.findLoops()
 	g.bindApplyLines()
+	g.checkAtCallAnchors()
 	for _, b := range fn.Blocks {
 		for _, in := range b.Instrs {
 			if a, ok := in.(*ssa.Alloc); ok && a.Comment != "" {
@@ -1520,6 +1521,37 @@ func (g *Gen) envAtLocals(st *State) *Env {
 }
 
 // bindApplyLines resolves the source fragments of apply-at clauses to lines of this function.
+// checkAtCallAnchors: an "at-call f [label] e" clause whose callee is no longer called anywhere in the
+// function would silently generate nothing; it becomes an obligation that cannot be discharged, so a
+// change that removes the anchoring call (e.g. the validation step itself) is reported.
+func (g *Gen) checkAtCallAnchors() {
+	for _, ac := range g.con.AtCalls {
+		if ac.AtText != "" || ac.Apply {
+			continue
+		}
+		found := false
+		for _, b := range g.fn.Blocks {
+			for _, in := range b.Instrs {
+				ci, ok := in.(ssa.CallInstruction)
+				if !ok {
+					continue
+				}
+				key, _ := g.calleeKey(ci.Common())
+				if key != "" && (strings.HasSuffix(key, "."+ac.Callee) || strings.HasSuffix(key, "/"+ac.Callee) || key == ac.Callee) {
+					found = true
+				}
+			}
+		}
+		if !found {
+			lab := ac.Clause.Label
+			if lab == "" {
+				lab = ac.Callee
+			}
+			g.addObl("at-call", lab, "false", g.fn.Pos(), "no call to "+ac.Callee+" remains in the function: the call this assertion is attached to is gone", ac.Clause)
+		}
+	}
+}
+
 func (g *Gen) bindApplyLines() {
 	g.applyLines = map[int][]*AtCall{}
 	var frags []*AtCall
